@@ -32,6 +32,7 @@ RULE = (
 )
 RULE += (" " + 'Rule lists also name rules by non-canonical UUID spellings (upper case, braces, urn:uuid:, no dashes).')
 RULE += (" A quarter of the streams starts with an action: global template document carrying a product: it is merged over every following detection rule (expectations use the merged documents) and must leave filters as they are.")
+RULE += (" A quarter of the rules has two conditions; a quarter of the streams derives a further rule from the last one through an action: repeat document.")
 ASSUMPTIONS = [
     "vf/ref is the specification of rule and filter conditions; atoms independent",
     "the library's random prefix is drawn from random.choices; the case fixes random.seed",
@@ -128,7 +129,30 @@ def check_case(case: dict) -> Outcome:
     rules, filters, rseed = case["rules"], case["filters"], case["rseed"]
     suffix = case.get("suffix") or ""
     cfg = full_cfg(CFG)
-    stream = rules + filters
+    # 'action: repeat' documents: the previous rule document merged with the overrides (deprecated but
+    # supported collection form); expectations use the merged document
+    stream_rules, merged_rules = [], []
+    for r in rules:
+        if "_repeat" in r:
+            over = r["_repeat"]
+            stream_rules.append(dict(over, action="repeat"))
+            def deep(dst, src):  # maps are merged key by key at every level, everything else is replaced
+                for k, v in src.items():
+                    if isinstance(v, dict):
+                        dst[k] = deep(dst[k] if isinstance(dst.get(k), dict) else {}, v)
+                    else:
+                        dst[k] = v
+                return dst
+            merged_rules.append(deep(json.loads(json.dumps(merged_rules[-1])), json.loads(json.dumps(over))))
+            out.label("repeat-document")
+        else:
+            stream_rules.append(r)
+            merged_rules.append(r)
+    rules = merged_rules
+    if len({r["title"] for r in rules}) != len(rules):
+        out.skipped = "rule titles are not distinct (results are keyed by title)"
+        return out
+    stream = stream_rules + filters
     gp = case.get("global_product")
     if gp:
         # a collection-level template (action: global) in front of the stream: its values are merged over
@@ -167,7 +191,9 @@ def check_case(case: dict) -> Outcome:
         got = _convert(stream, rseed, suffix)
         base = _convert(rules, rseed, suffix)
     except (SigmaError, NotImplementedError) as e:
-        out.fail(f"C11:conversion-failed:{type(e).__name__}:{special}", f"{type(e).__name__}: {e} for filters {[f['filter'] for f in filters]} rules {[r.get('detection') for r in rules]}"[:900])
+        import re as _re
+        what = "filter-detection-undefined" if _re.search(r"Detection '_filt_[a-z]{10}_", str(e)) else ("no-condition" if "at least one condition" in str(e) else "other")
+        out.fail(f"C11:conversion-failed:{type(e).__name__}:{what}:{special}", f"{type(e).__name__}: {e} for filters {[f['filter'] for f in filters]} rules {[r.get('detection') for r in rules]}"[:900])
         return out
     for r in rules:
         t = r["title"]
@@ -236,8 +262,15 @@ def cases(draw):
         names = draw(st.lists(st.sampled_from(NAMES), min_size=2, max_size=3, unique=True))
         det = {n: {draw(st.sampled_from(fieldpool)): f"r{i}{k}"} for k, n in enumerate(names)}
         det["condition"] = draw(st.sampled_from(_valid(RULE_CONDS, names)))
+        if draw(st.integers(0, 3)) == 0:
+            det["condition"] = [det["condition"], names[0]]
         rules.append({"title": f"rule{i}", "id": UUIDS[i] if draw(st.integers(0, 5)) else UUIDS[i].upper(), "name": f"rn{i}", "logsource": draw(st.sampled_from(LOGSOURCES)),
                       "detection": det})
+    if draw(st.integers(0, 3)) == 0:  # a rule derived from the last one by an 'action: repeat' document
+        k = len(rules)
+        last = rules[-1]
+        n0 = [n for n in last["detection"] if n != "condition"][0]
+        rules.append({"_repeat": {"title": f"rule{k}", "id": UUIDS[k], "name": f"rn{k}", "detection": {n0: {draw(st.sampled_from(fieldpool)): f"r{k}0"}}}})
     if draw(st.integers(0, 5)) == 0:
         rules.append({"title": "corr", "correlation": {"type": "event_count", "rules": ["rn0"], "timespan": "5m",
                                                        "condition": {"gte": 2}, "generate": True}})
